@@ -98,6 +98,8 @@ def run_case(ctx, case):
         req = {"op": "value_ops", "v": it["v"], "path": it["path"]}
         if it["has_x"]:
             req["x"] = it["x"]
+        if ctx.tier == "thorough" and len(ctx.recorded) < 12 and len(path) >= 2:
+            ctx.record(req)
         r = ctx.call(req)
         if "panic" in r:
             ctx.violation("value_ops:panic@%s" % r["panic"]["loc"].rsplit(":", 1)[0].replace("/repo/", ""),
@@ -249,3 +251,18 @@ def run_case(ctx, case):
         state = "through_scalar" if through_scalar else "existing" if got[0] else "missing"
         ctx.ok((shape(path), state, pads), nontrivial,
                sample={"v": repr(v)[:120], "path": path, "get": repr(got)[:80]})
+
+
+def post_run(tier, seed, merged):
+    """Thorough: the recorded value_ops requests replayed under Miri (pure Rust path code)."""
+    if tier != "thorough":
+        return
+    from .. import sanitize
+    reqs = list(merged.get("recorded", []))[:120]
+    if not reqs:
+        return
+    res = sanitize.miri_replay(reqs, "C18", timeout=3600)
+    merged["sanitizers"]["miri"] = {k: v for k, v in res.items() if k != "stderr"}
+    if res["status"] == "report":
+        merged["violations"]["miri:%s@%s" % (res["kind"][:60], res.get("location", "?"))] = {
+            "count": 1, "detail": {"stderr": res.get("stderr")}, "case": {"requests": reqs}, "index": None, "proc": None}
